@@ -357,4 +357,5 @@ def add_extras(ty, v, defs, rng, poison=False):
 
 def entries(extra_defs=(), extra_entries=()):
     g, table = G.generate(extra_defs, extra_entries, write=False)
-    return list(zip(table["entries"], list(C.ENTRIES) + list(extra_entries))), table
+    ents = [("ref", e[1]) if e[0] == "bare" else e for e in list(C.ENTRIES) + list(extra_entries)]     # a twin takes the payloads of its original
+    return list(zip(table["entries"], ents)), table
